@@ -60,6 +60,12 @@ func runC05(c *Ctx) {
 	// analysis runs on forked boards: the fork must carry the clock and the history the rules above count in
 	r.Rule("R05-fork", "a forked board carries the half-move clock, the per-hash counters and the shared past of the original, so draws are adjudicated on it exactly as on the original (the rule of C08, re-decided here)", 4)
 	c.guard("R05-fork", func() { r.WithAlias("R08-fork", "R05-fork", func() { c08Fork(c, g) }) })
+	// a game with take-backs (Engine.TakeBack, a search that tries and undoes moves on the board it was given) is
+	// adjudicated like the game without them only if a take-back restores the per-hash counters, the clock and the
+	// saved result exactly: a counter left one too low closes the gate in front of the exact re-count and the
+	// third occurrence goes unreported (rule of C08, re-decided here)
+	r.Rule("R05-takeback", "PopMove is the exact inverse of PushMove on everything the draw bookkeeping reads: per-hash repetition counters, half-move clock, saved result (rule of C08)", 18)
+	c.guard("R05-takeback", func() { r.WithAlias("R08-inverse", "R05-takeback", func() { c08Inverse(c, g) }) })
 }
 
 var pawnOrCapture = map[string]bool{"Push": true, "Jump": true, "EnPassant": true, "Capture": true, "Promotion": true, "CapturePromotion": true}
@@ -182,6 +188,7 @@ func c05Push(c *Ctx, g *gameModel) {
 				}
 				// repetition
 				rep, rep5x := false, false
+				repSkipped := ""
 				if e := hasEffect(st, "q:identCount"); e != nil {
 					actual := absint.NewSym(types.Typ[types.Int], "actual")
 					a3, k3 := absint.Decide(st, absint.Not(absint.BinOp(token.LSS, actual, absint.MkInt(3, types.Typ[types.Int]), types.Typ[types.Bool])))
@@ -212,8 +219,9 @@ func c05Push(c *Ctx, g *gameModel) {
 					}
 					lt3, known := absint.Decide(st, absint.BinOp(token.LSS, cnt, absint.MkInt(3, types.Typ[types.Int]), types.Typ[types.Bool]))
 					if !known || !lt3 {
-						bad = fmt.Sprintf("exact re-count skipped although the hash counter %s is not known to be < 3 [%s]", vstrOf(cnt), pp.facts)
-						continue
+						// acceptable only where another draw condition already decides the verdict on this path
+						// (the clock reached 100, or the material test said so): decided below
+						repSkipped = fmt.Sprintf("exact re-count skipped although the hash counter %s is not known to be < 3 [%s]", vstrOf(cnt), pp.facts)
 					}
 				}
 				mat := false
@@ -242,6 +250,10 @@ func c05Push(c *Ctx, g *gameModel) {
 						out, hasOut = o2, true
 						reason, _ = structField(whole, "Reason")
 					}
+				}
+				if repSkipped != "" && !(npLimit || mat) {
+					bad = repSkipped
+					continue
 				}
 				drawn := rep || npLimit || mat
 				switch {
